@@ -24,9 +24,18 @@ Notation stack_ok := (stack_ok rank).
 Ltac conj := repeat match goal with |- _ /\ _ => split end.
 
 (* ---------------------------------------------------------------- bookkeeping *)
-Lemma ext_of_core_eq s s' : core_eq s s' -> d_pcell s' = d_pcell s -> ext s s'.
+Lemma ext_of_core_eq' s s' :
+  core_eq s s' -> d_pcell s' = d_pcell s -> (d_evfault s = None -> d_evfault s' = None) -> ext s s'.
 Proof.
-  intros (Hr & Hi & Hce & Hm & Hs) Hp. constructor; auto.
+  intros (Hr & Hi & Hce & Hm & Hs) Hp Hev. constructor; auto.
+  - intros q r. unfold seen. rewrite Hs. auto.
+  - intros q m Hq _ _. rewrite Hm. exact Hq.
+Qed.
+
+Lemma ext_of_core_eq s s' :
+  core_eq s s' -> d_pcell s' = d_pcell s -> d_evfault s' = d_evfault s -> ext s s'.
+Proof.
+  intros (Hr & Hi & Hce & Hm & Hs) Hp Hev. constructor; auto; [congruence|..].
   - intros q r. unfold seen. rewrite Hs. auto.
   - intros q m Hq _ _. rewrite Hm. exact Hq.
 Qed.
@@ -58,39 +67,67 @@ Qed.
 Definition XP (s0 : db) : panic -> db -> Prop :=
   fun p s' => allowed s0 p /\ Inv s' /\ ext s0 s'.
 
+(* the event callback: either the event is logged (nothing the invariant talks about moves),
+   or the armed fault fires and the computation unwinds from an unchanged core state *)
+Lemma emit_ok e s s0 (Q : unit -> db -> Prop) :
+  Inv s -> ext s0 s ->
+  (forall s1, core_eq s s1 -> Inv s1 -> ext s s1 -> d_stack s1 = d_stack s ->
+              d_log s1 = e :: d_log s -> Q tt s1) ->
+  wp (emit e) Q (XP s0) s.
+Proof.
+  intros HI He HQ. apply wp_emit.
+  - intros s1 Hr Hi Hc Hp Hm Hs Hst Hl Hev Hlog.
+    assert (Hce : core_eq s s1) by (repeat split; assumption).
+    apply HQ; try assumption.
+    + apply (Inv_core_eq prog NF H s); assumption.
+    + apply ext_of_core_eq'; assumption.
+  - intros Hne.
+    assert (Hce : core_eq s (set_evfault s None)) by (repeat split).
+    split.
+    + right. split; [reflexivity|]. right. intros H0. apply Hne. apply (ext_evfault _ _ He). exact H0.
+    + split; [apply (Inv_core_eq prog NF H s); assumption|].
+      eapply ext_trans; [exact He|]. apply ext_of_core_eq'; [exact Hce | reflexivity | reflexivity].
+Qed.
+
 (* ---------------------------------------------------------------- mark_verified *)
-Lemma mark_verified_ok q m s (X : panic -> db -> Prop) :
+Lemma mark_verified_ok q m s s0 :
+  ext s0 s ->
   Inv s -> d_memo s q = Some m ->
   agree_on (envat (m_verified m)) (envat (cur s)) (tr (m_verified m) q) ->
   (forall d, In (EQ d) (m_edges m) -> seen s d (cur s)) ->
   wp (mark_verified q m)
      (fun m' s' => m' = reverify m (cur s) /\ Inv s' /\ ext s s' /\
                    touch_below s s' (S (rank q)) /\ d_stack s' = d_stack s /\
-                   d_memo s' q = Some m' /\ E (cur s) q = E (m_verified m) q) X s.
+                   d_memo s' q = Some m' /\ E (cur s) q = E (m_verified m) q) (XP s0) s.
 Proof.
-  intros HI Hm Hag Hed.
+  intros He0 HI Hm Hag Hed.
   unfold mark_verified.
-  apply wp_bind, wp_get. apply wp_bind, wp_emit. apply wp_bind.
+  apply wp_bind, wp_get. apply wp_bind. apply (emit_ok _ s s0); [exact HI | exact He0|].
+  intros s1 Hce HI1 He01 Hst1 _.
+  apply wp_bind.
   unfold set_memo_at. apply wp_modify. apply wp_ret.
-  set (s1 := set_log s (EvValidate q :: d_log s)).
   set (m' := {| m_val := m_val m; m_verified := cur s; m_changed := m_changed m; m_dur := m_dur m;
                m_untracked := m_untracked m; m_edges := m_edges m |}).
   change (set_seen _ _) with (store s1 q m').
-  assert (Hce : core_eq s s1) by apply core_eq_log.
-  assert (HI1 : Inv s1) by (apply (Inv_core_eq prog NF H s); assumption).
-  destruct (revalidate_ok prog rank Hrank NF Hbound H s1 q m HI1 Hm Hag Hed) as (Hok & Hcl & HE).
-  assert (Hrv : reverify m (cur s1) = m') by reflexivity.
+  assert (Hcur1 : cur s1 = cur s) by (apply core_eq_cur; exact Hce).
+  assert (Hm1 : d_memo s1 q = Some m) by (destruct Hce as (_ & _ & _ & Hmm & _); rewrite Hmm; exact Hm).
+  assert (Hed1 : forall d, In (EQ d) (m_edges m) -> seen s1 d (cur s1)).
+  { intros d Hd. rewrite Hcur1. apply (ext_seen _ _ He01). apply Hed; exact Hd. }
+  assert (Hag1 : agree_on (envat (m_verified m)) (envat (cur s1)) (tr (m_verified m) q))
+    by (rewrite Hcur1; exact Hag).
+  destruct (revalidate_ok prog rank Hrank NF Hbound H s1 q m HI1 Hm1 Hag1 Hed1) as (Hok & Hcl & HE).
+  assert (Hrv : reverify m (cur s1) = m') by (unfold reverify, m'; rewrite Hcur1; reflexivity).
   cbv zeta in Hok. rewrite Hrv in Hok.
-  destruct (Inv_store prog NF H s1 q m' HI1 eq_refl Hok Hcl) as [HI2 Hext].
-  { intros m0 Hm0 Hv0 _. change (d_memo s1 q) with (d_memo s q) in Hm0.
-    rewrite Hm in Hm0. injection Hm0 as <-. change (cur s1) with (cur s) in Hv0.
+  destruct (Inv_store prog NF H s1 q m' HI1 (eq_sym Hcur1) Hok Hcl) as [HI2 Hext].
+  { intros m0 Hm0 Hv0 _.
+    rewrite Hm1 in Hm0. injection Hm0 as <-. rewrite Hcur1 in Hv0.
     unfold m'. rewrite <- Hv0. symmetry. apply reverify_same. }
   split; [reflexivity|]. split; [exact HI2|]. split.
-  { eapply ext_trans; [apply ext_of_core_eq; [exact Hce | reflexivity] | exact Hext]. }
+  { eapply ext_trans; [exact He01 | exact Hext]. }
   split.
   { eapply touch_below_trans with (k1 := S (rank q)) (k2 := S (rank q));
       [lia | lia | apply touch_of_core_eq; exact Hce | apply touch_store; lia]. }
-  split; [reflexivity|]. split; [|exact HE].
+  split; [cbn; exact Hst1|]. split; [|rewrite <- Hcur1; exact HE].
   unfold store; cbn. apply upd_same.
 Qed.
 
@@ -124,11 +161,12 @@ Definition verified_now (s0 : db) (q : qkey) (m : memo) (m' : memo) (s' : db) : 
   d_memo s' q = Some m' /\ m_verified m' = cur s0 /\ m_val m' = m_val m /\
   m_dur m' = m_dur m /\ m_changed m' = m_changed m /\ E (cur s0) q = E (m_verified m) q.
 
-Lemma update_shallow_ok q m s u (X : panic -> db -> Prop) :
+Lemma update_shallow_ok q m s u s0 :
+  ext s0 s ->
   Inv s -> d_memo s q = Some m -> shallow_verify s m = u -> u <> ShNo ->
-  wp (update_shallow q m u) (fun m' s' => verified_now s q m m' s') X s.
+  wp (update_shallow q m u) (fun m' s' => verified_now s q m m' s') (XP s0) s.
 Proof.
-  intros HI Hm Hu Hne.
+  intros He0 HI Hm Hu Hne.
   pose proof (shallow_cases s q m HI Hm) as Hc. rewrite Hu in Hc.
   destruct u; [| |contradiction]; cbn [update_shallow].
   - apply wp_ret. unfold verified_now. rewrite Hc.
@@ -139,7 +177,7 @@ Proof.
     destruct (mo_dur _ _ _ _ _ _ Hok) as [H0 | (_ & _ & Hq & Hed)]; [rewrite H0 in H3; discriminate|].
     assert (Hed' : forall d, In (EQ d) (m_edges m) -> seen s d (cur s)).
     { rewrite Hed. intros d []. }
-    pose proof (mark_verified_ok q m s X HI Hm (quiet_agree q _ _ Hq) Hed') as Hmv.
+    pose proof (mark_verified_ok q m s s0 He0 HI Hm (quiet_agree q _ _ Hq) Hed') as Hmv.
     eapply wp_conseq; [exact Hmv | | intros; assumption].
     intros m' s' (-> & HI' & Hext & Ht & Hst & Hm' & HE).
     unfold verified_now. conj; auto.
@@ -166,7 +204,7 @@ Definition mca_spec (L : lower) (n : nat) : Prop :=
 
 Lemma XP_trans s0 s1 p s' : ext s0 s1 -> XP s1 p s' -> XP s0 p s'.
 Proof.
-  intros He (Ha & HI & He'). split; [apply (allowed_ext s0 s1); [apply (ext_pcell _ _ He) | exact Ha]|].
+  intros He (Ha & HI & He'). split; [apply (allowed_ext s0 s1); [apply (ext_pcell _ _ He) | apply (ext_evfault _ _ He) | exact Ha]|].
   split; [exact HI|].
   eapply ext_trans; eassumption.
 Qed.
@@ -280,7 +318,7 @@ Proof.
         - reflexivity. }
       assert (Hed : forall d, In (EQ d) (m_edges m) -> seen s1 d (cur s1)).
       { intros d Hd. rewrite Hcur1. exact (proj2 (Hc _ Hd)). }
-      eapply wp_conseq; [apply (mark_verified_ok q m s1 (XP s) HI1 Hm1 Hag Hed) | |intros; assumption].
+      eapply wp_conseq; [apply (mark_verified_ok q m s1 s He1 HI1 Hm1 Hag Hed) | |intros; assumption].
       intros m' s2 (-> & HI2 & He2 & Ht2 & Hs2 & Hm2 & HE).
       apply wp_ret. unfold verify_post; cbn [fst snd].
       split; [exact HI2|]. split; [eapply ext_trans; eassumption|]. split.
@@ -303,12 +341,12 @@ Proof.
   apply wp_bind, wp_get.
   destruct (shallow_verify s m) eqn:Hsh.
   - apply wp_bind.
-    eapply wp_conseq; [apply (update_shallow_ok q m s ShVerified (XP s) HI Hm Hsh); discriminate | |intros; assumption].
+    eapply wp_conseq; [apply (update_shallow_ok q m s ShVerified s (ext_refl s) HI Hm Hsh); discriminate | |intros; assumption].
     intros m' s' Hv. apply wp_ret. unfold verify_post; cbn [fst snd].
     pose proof Hv as (A & B & C & D & _).
     conj; auto. discriminate.
   - apply wp_bind.
-    eapply wp_conseq; [apply (update_shallow_ok q m s ShHigher (XP s) HI Hm Hsh); discriminate | |intros; assumption].
+    eapply wp_conseq; [apply (update_shallow_ok q m s ShHigher s (ext_refl s) HI Hm Hsh); discriminate | |intros; assumption].
     intros m' s' Hv. apply wp_ret. unfold verify_post; cbn [fst snd].
     pose proof Hv as (A & B & C & D & _).
     conj; auto. discriminate.
@@ -510,7 +548,7 @@ Proof.
     destruct (d_pcell s pc =? 0) eqn:Hpc.
     + apply (IH pre fr s Hc); try assumption.
       intros d Hd. apply Hcalls. eapply calls_in_panicif; exact Hd.
-    + apply wp_fail. split; [right; split; [reflexivity | exists pc; apply N.eqb_neq; exact Hpc]|].
+    + apply wp_fail. split; [right; split; [reflexivity | left; exists pc; apply N.eqb_neq; exact Hpc]|].
       split; [exact HI | apply ext_refl].
 Qed.
 
@@ -547,22 +585,20 @@ Lemma execute_ok L n q s old (HF : fetch_spec L n) :
   wp (execute prog noeq L q old) (exec_post s q) (XP s) s.
 Proof.
   intros Hn HI Hold Hnv Hst. unfold execute.
-  apply wp_bind, wp_emit.
-  set (s1 := set_log s (EvExec q :: d_log s)).
-  assert (Hce : core_eq s s1) by apply core_eq_log.
-  assert (HI1 : Inv s1) by (apply (Inv_core_eq prog NF H s); assumption).
-  assert (He01 : ext s s1) by (apply ext_of_core_eq; [exact Hce | reflexivity]).
+  apply wp_bind. apply (emit_ok _ s s); [exact HI | apply ext_refl|].
+  intros s1 Hce HI1 He01 Hst01 _.
+  assert (Hcur01 : cur s1 = cur s) by (apply core_eq_cur; exact Hce).
   apply wp_bind.
   eapply wp_conseq; [apply (run_body_ok L n q (cur s) HF (prog q) [] frame0 s1) | |].
-  - reflexivity.
+  - exact Hcur01.
   - reflexivity.
   - apply (E_unfold prog rank Hrank NF Hbound).
   - intros d Hd. pose proof (Hrank q d Hd). split; lia.
   - exact HI1.
-  - apply covers_frame0. apply (inv_cur _ _ _ _ HI).
-  - exact Hst.
+  - apply covers_frame0. apply (inv_cur _ _ _ _ HI1).
+  - rewrite Hst01. exact Hst.
   - intros [v fr] s2 (HI2 & He2 & Ht2 & Hs2 & Hv & Hcv). cbn [fst snd] in *.
-    pose proof (ext_cur _ _ He2) as Hc2. change (cur s1) with (cur s) in Hc2.
+    pose proof (ext_cur _ _ He2) as Hc2. rewrite Hcur01 in Hc2.
     apply wp_bind, wp_get.
     assert (He02 : ext s s2) by (eapply ext_trans; eassumption).
     assert (Ht02 : touch_below s s2 (rank q)).
@@ -586,15 +622,20 @@ Proof.
         as (A & B & C & D).
       unfold exec_post.
       split; [exact A|]. split; [exact B|]. split; [exact C|].
-      split; [cbn; rewrite Hs2; reflexivity|]. split; [exact D|].
+      split; [cbn; rewrite Hs2; exact Hst01|]. split; [exact D|].
       split; [cbn; exact Hc2 | cbn; rewrite Hv; reflexivity]. }
     destruct old as [o|].
     + destruct (m_val o) as [ov|] eqn:Hov.
-      * destruct (can_backdate_dur (fr_dur fr) (m_dur o) && negb (noeq q) && (ov =? v)) eqn:Hbd.
-        -- destruct (changed_after (m_changed o) (fr_changed fr)).
-           ++ apply wp_fail. split; [left; reflexivity|]. split; [exact HI2 | exact He02].
-           ++ apply Hfin. right. exists o, ov. conj; auto.
-              apply andb_true_iff in Hbd. destruct Hbd as [_ Hbd]. apply N.eqb_eq in Hbd. exact Hbd.
+      * destruct (can_backdate_dur (fr_dur fr) (m_dur o) && negb (noeq q)).
+        -- destruct (d_pcell s2 EQ_FAULT =? 0) eqn:Hqf; cbn [negb].
+           ++ destruct (ov =? v) eqn:Hbd.
+              ** destruct (changed_after (m_changed o) (fr_changed fr)).
+                 --- apply wp_fail. split; [left; reflexivity|]. split; [exact HI2 | exact He02].
+                 --- apply Hfin. right. exists o, ov. conj; auto. apply N.eqb_eq in Hbd. exact Hbd.
+              ** apply Hfin. left; reflexivity.
+           ++ apply wp_fail. split; [|split; [exact HI2 | exact He02]].
+              right. split; [reflexivity|]. left. exists EQ_FAULT.
+              rewrite <- (ext_pcell _ _ He02). apply N.eqb_neq. exact Hqf.
         -- apply Hfin. left; reflexivity.
       * apply Hfin. left; reflexivity.
     + apply Hfin. left; reflexivity.
@@ -626,7 +667,7 @@ Lemma stacked s q :
 Proof. intros Hst p [<- | Hp]; [lia | specialize (Hst p Hp); lia]. Qed.
 
 Lemma ext_set_stack s l : ext s (set_stack s l).
-Proof. apply ext_of_core_eq; [apply core_eq_stack | reflexivity]. Qed.
+Proof. apply ext_of_core_eq; [apply core_eq_stack | reflexivity | reflexivity]. Qed.
 
 Lemma fetch_cold_ok L n q s (HF : fetch_spec L n) (HM : mca_spec L n) :
   (rank q <= n)%nat -> Inv s -> stack_ok s q -> not_valid_with_value s q ->
@@ -724,7 +765,7 @@ Proof.
                                   | None => s' = s /\ not_valid_with_value s q
                                   end) (XP s) s).
       { intros u Hu Hne. apply wp_bind.
-        eapply wp_conseq; [apply (update_shallow_ok q m s u (XP s) HI Hm Hu Hne) | |intros; assumption].
+        eapply wp_conseq; [apply (update_shallow_ok q m s u s (ext_refl s) HI Hm Hu Hne) | |intros; assumption].
         intros m' s' (A & B & C & D & Hm' & Hv' & Hval' & _ & _ & HE).
         apply wp_ret. unfold got; cbn [fst snd]. conj; auto; try congruence.
         rewrite HE. apply (mo_val _ _ _ _ _ _ (inv_memo _ _ _ _ HI q m Hm)); exact Hv. }
@@ -755,7 +796,7 @@ Proof.
     assert (Hce : core_eq s2 s3) by apply core_eq_lru.
     unfold fetch_post, memo_qres; cbn [fst snd].
     split; [apply (Inv_core_eq prog NF H s2); assumption|].
-    split; [eapply ext_trans; [exact B | apply ext_of_core_eq; [exact Hce | reflexivity]]|].
+    split; [eapply ext_trans; [exact B | apply ext_of_core_eq; [exact Hce | reflexivity | reflexivity]]|].
     split.
     { eapply touch_below_trans with (k1 := S (rank q)) (k2 := 0%nat);
         [lia | lia | exact C | apply touch_of_core_eq; exact Hce]. }
@@ -841,7 +882,7 @@ Proof.
               wp (m' <- update_shallow q m u ;; ret (changed_after (m_changed m') since))
                  (mca_post s q since) (XP s) s).
     { intros u Hu Hne. apply wp_bind.
-      eapply wp_conseq; [apply (update_shallow_ok q m s u (XP s) HI Hm Hu Hne) | |intros; assumption].
+      eapply wp_conseq; [apply (update_shallow_ok q m s u s (ext_refl s) HI Hm Hu Hne) | |intros; assumption].
       intros m' s' (A & B & C & D & Hm' & Hv' & _ & _ & Hch' & _).
       apply wp_ret. unfold mca_post. conj; auto.
       intros Hca. apply changed_after_false in Hca. exists m'. conj; auto. }
